@@ -40,7 +40,7 @@ ASSUMPTIONS = [
 REQUIRED = ['status_400', 'status_505', 'status_500', 'status_200_dispatched', 'closed_without_response', 'waited_no_response',
             'exception_event_seen', 'disconnect_mid_message', 'disconnect_after_response', 'canary_answered', 'residue_scans',
             'weakref_checks', 'responses_parsed_by_reference', 'responses_crosschecked_http_client', 'reject_class_complete',
-            'truncation_cases', 'multi_read_cases', 'ref_parser_selftest_checks', 'announced_close_followed_by_close']
+            'truncation_cases', 'multi_read_cases', 'ref_parser_selftest_checks', 'announced_close_followed_by_close', 'hostile_message_asked_with_HEAD']
 REQUIRED_OBLIGATIONS = ['INCOMPLETE_MESSAGE_WAITS', 'LOOP_SURVIVES', 'ONE_VALID_RESPONSE_PER_READ', 'CLOSE_FOLLOWS_ANNOUNCEMENT', 'REJECTED_NOT_DISPATCHED',
                         'ERROR_STATUS_FOR_REJECTED', 'NO_STATE_AFTER_DISCONNECT', 'WELL_FORMED_DISPATCHED', 'EXCEPTION_ANSWERED_OR_CLOSED',
                         'DISPATCHED_HEADERS_CLEAN', 'BARE_CLOSE_ONLY_FOR_TLS']
@@ -258,9 +258,27 @@ def exit_path(obs):
     return code
 
 
+def method_of(case):
+    """How the answer to the hostile message has to be read: a response to HEAD carries no body whatever its Content-Length says."""
+    return 'HEAD' if b''.join(case['chunks']).lstrip(b'\r\n').startswith(b'HEAD ') else 'GET'
+
+
+def parse_answer(case, written, closed):
+    """(responses, error, method used).  A message that starts with 'HEAD ' may be answered like a HEAD (no body) or - when it is so
+    broken that the server cannot be held to have understood its method - like any other request (with the body the Content-Length
+    announces); both framings are tried, the first that yields complete responses counts."""
+    first = method_of(case)
+    rs, err = ref_http.parse_responses(written, methods=(first,), closed=closed)
+    if err is None or first == 'GET':
+        return rs, err, first
+    rs2, err2 = ref_http.parse_responses(written, methods=('GET',), closed=closed)
+    return (rs2, err2, 'GET') if err2 is None else (rs, err, first)
+
+
 def judge(case, obs):
     """Obligations of the property on one observation: list of (clause, ok, detail, dedup)."""
     res = []
+    meth = method_of(case)
     cls = case.get('class', '?')
     res.append(('LOOP_SURVIVES', obs['crash'] is None and obs.get('canary') is True,
                 {'crash': obs['crash'], 'canary': obs.get('canary'), 'canary_detail': obs.get('canary_detail')}, cls))
@@ -279,12 +297,12 @@ def judge(case, obs):
         if st['written'] or st['closes']:
             msg_from = i + 1
         detail = None
-        rs, err = ref_http.parse_responses(st['written'], closed=bool(st['closes']))
+        rs, err, meth = parse_answer(case, st['written'], bool(st['closes']))
         if err is not None or len(rs) > 1 or st['requests'] > 1 or st['foreign']:
             detail = {'read': i, 'written': st['written'][:400], 'parse_error': err, 'responses': len(rs), 'requests': st['requests'],
                       'writes_or_closes_on_other_connections': st['foreign']}
         elif rs:
-            d = ref_http.crosscheck(st['written'], 'GET', closed=bool(st['closes']))
+            d = ref_http.crosscheck(st['written'], meth, closed=bool(st['closes']))
             if d:
                 detail = {'read': i, 'written': st['written'][:400], 'http.client': d}
         if st['written'] or st['closes'] or st['requests']:
@@ -385,7 +403,7 @@ def twin_cases(case, obs, clause):
                 chunks.append(fixed[pos:pos + len(c)])
                 pos += len(c)
             out.append((K_505, dict(case, chunks=chunks, expect='any', **{'class': 'twin-of-' + cls})))
-        errs = [ref_http.parse_responses(st['written'], closed=bool(st['closes']))[1] for st in obs['steps']]
+        errs = [parse_answer(case, st['written'], bool(st['closes']))[1] for st in obs['steps']]
         if any(e and "field value of b'Location'" in e[1] for e in errs):
             # trigger: control bytes (raw, or produced by the parser's unicode_escape decoding of backslash sequences) in the
             # request are copied into the Location header of the path-guard redirect.  twin: the same reads with every control
@@ -413,6 +431,8 @@ def evaluate(b, case):
     b.case(case, nontrivial=bool(obs['steps']) and not (wellformed and complete))
     # coverage
     b.reached('class.' + cls)
+    if method_of(case) == 'HEAD':
+        b.reached('hostile_message_asked_with_HEAD')
     if len(case['chunks']) > 1 and obs['delivered'] > 1:
         b.reached('multi_read_cases')
     if case.get('truncated'):
@@ -429,7 +449,7 @@ def evaluate(b, case):
         if m:
             code = int(m.group(1))
             b.reached('status_%d%s' % (code, '_dispatched' if code == 200 and st['requests'] else ''))
-            rs, err = ref_http.parse_responses(st['written'], closed=bool(st['closes']))
+            rs, err, _m = parse_answer(case, st['written'], bool(st['closes']))
             if err is None and len(rs) == 1:
                 b.reached('responses_parsed_by_reference')
                 b.reached('responses_crosschecked_http_client')   # judge() runs ref_http.crosscheck on exactly these
@@ -651,6 +671,7 @@ def make_case(cls, expect, data, orig, chunks=None, disconnect_after='end', **ex
 
 def corpus_cases():
     cases = []
+    b_head_seen = []
     H11_ = b'GET / HTTP/1.1\r\nHost: h\r\n\r\n'
     for good, tag in ((GOOD, 'get'), (GOOD_POST, 'post'), (GOOD_CHUNKED, 'chunked'), (GOOD_GZIP, 'gzip')):
         cases.append(make_case('well-formed', 'accept', good, good))
@@ -738,7 +759,12 @@ def corpus_cases():
         ('http10-no-keepalive', 'accept', b'GET /old HTTP/1.0\r\n\r\n'),
         ('connection-close', 'accept', b'GET /bye HTTP/1.1\r\nHost: h\r\nConnection: close\r\n\r\n'),
     ]
+    # the same hostile messages asked with HEAD (answers to HEAD go through their own branch of the response path)
+    fixed += [(cls, expect, b'HEAD' + data[data.index(b' '):]) for cls, expect, data in list(fixed)
+              if data.startswith((b'GET ', b'POST ')) and cls not in ('well-formed', 'http10-no-keepalive', 'connection-close')]
     for cls, expect, data in fixed:
+        if data.startswith(b'HEAD '):
+            b_head_seen.append(1)
         orig = GOOD_POST if data.startswith(b'POST') else H11
         if expect == 'accept':
             orig = data
@@ -766,7 +792,7 @@ def corpus_cases():
 
 def gen_case(rng):
     from checks import c13
-    orig = c13.gen_request(rng, keepalive=rng.random() < 0.7, allow_head=False)
+    orig = c13.gen_request(rng, keepalive=rng.random() < 0.7, allow_head=True)
     if rng.random() < 0.3:
         orig = rng.choice([GOOD, GOOD_POST, GOOD_CHUNKED])
     cls, expect, data = mutations(rng, orig)
